@@ -49,7 +49,12 @@ def cases(tier, seed):
         if i % 11 == 5:
             # planting late in the year: the season spans New Year
             kw["planting"] = f"{int(rng.integers(10, 13)):02d}/{int(rng.integers(1, 29)):02d}"
+        if i % 13 == 7:
+            kw.update(crops=["SugarCane"], harvest_early=0.0)
         sp = gen.config(rng, **kw)
+        if i % 13 == 7:
+            # a twelve-month crop whose latest harvest date is the anniversary of planting
+            sp["crop"]["harvest"] = sp["crop"]["planting"]
         if i % 7 == 3:
             sp["weather"].setdefault("params", {}).update(pwet=0.0, pstorm=0.0)
         c = {"spec": sp, "cls": f"{pre}/{shape}/{int(off)}"}
@@ -100,12 +105,26 @@ def monitor(spec, res, acc, complete=True):
             acc.add("season-count", f"{nse} seasons scheduled ({[str(x) for x in pl[-2:]]} last), but the window "
                     f"{S0}..{E0} contains {len(cand)} planting dates that start a season (last {cand[-1] if cand else None})",
                     dict(scheduled=nse, expected=len(cand), spanning=spanning, end=str(E0)))
-    if spec["crop"].get("harvest"):
-        hm, hd_ = [int(x) for x in spec["crop"]["harvest"].split("/")]
-        for h in hd:
+    # ---- latest harvest dates ---------------------------------------------------------------
+    # one month/day for all seasons (the configured one if the user gave one, else whatever the
+    # model derived for the first season), in the planting year if it lies after the planting
+    # day in the calendar, else in the following year
+    if hd:
+        if spec["crop"].get("harvest"):
+            hm, hd_ = [int(x) for x in spec["crop"]["harvest"].split("/")]
+        else:
+            hm, hd_ = hd[0].month, hd[0].day
+        pm, pd_ = [int(x) for x in spec["crop"]["planting"].split("/")]
+        for i, h in enumerate(hd):
+            cov["harvest_date_checks"] += 1
             if (h.month, h.day) != (hm, hd_):
-                acc.add("harvest-date-binding", f"latest harvest date {h} is not the configured "
-                        f"{spec['crop']['harvest']}", {})
+                acc.add("harvest-date-binding", f"latest harvest date {h} of season {i} is not on "
+                        f"{hm:02d}/{hd_:02d} ({'configured' if spec['crop'].get('harvest') else 'as in season 0'})",
+                        dict(season=i, harvest=str(h)))
+                break
+            if i < len(pl) and h.year != pl[i].year + (0 if (pm, pd_) < (hm, hd_) else 1):
+                acc.add("harvest-date-binding", f"latest harvest date {h} of season {i} planted {pl[i]} is not "
+                        "the first such day after planting", dict(season=i, harvest=str(h), planting=str(pl[i])))
                 break
     prev = None
     seen = set()
